@@ -139,9 +139,36 @@ def parseOp (ws : List String) : Option Op :=
     pure (.txts k (.pdelayResp id r) t)
   | _ => none
 
+/-- what the recording filter of port `k` reports as its estimates (harness `RecFilter::current_estimates`) -/
+def estOffset (k : Nat) : Int := -(((1000 + k : Nat) : Int) * (F32 : Int)) - 7
+def estDelay (k : Nat) : Int := ((2000 + k : Nat) : Int) * (F32 : Int) + 9
+
+/-- `Port::port_ds()` as text -/
+def showPortDS (k : Nat) (p : Port) : String :=
+  let mech := if p.cfg.p2p then "P2P" else "E2E"
+  let mld := if p.cfg.p2p then toString (match p.meanDelay with | some d => durToTiv d | none => 0) else "-"
+  s!"P{k} {showPid p.id} {p.st.name} {p.cfg.announceLog} {p.cfg.receiptTimeout} {p.cfg.syncLog} {mech} {p.cfg.delayLog} {mld} 2 {p.cfg.minorVersion} {durToTiv p.cfg.delayAsymmetry} {bstr p.cfg.masterOnly}"
+
+def enumFrom1 {α} (l : List α) : List (Nat × α) := (List.range l.length).zip l |>.map fun (i, x) => (i + 1, x)
+
+/-- `DUMP`: the data sets the daemon exposes for observation, built the way `main.rs` builds its
+`ObservableInstanceState` (the current data set takes offset and mean delay from the first Slave port's filter) -/
+def showObservable (i : Inst) : String :=
+  let s := i.st
+  let ports := enumFrom1 i.ports
+  let contrib := ports.find? (fun (_, p) => match p.st with | .slave .. => true | _ => false)
+  let (off, md) := match contrib with | some (k, _) => (estOffset k, estDelay k) | none => (0, 0)
+  let path := if s.pathTrace.isEmpty then "-" else ",".intercalate (s.pathTrace.map (fun c => hexBE c 8))
+  let head := s!"OBSV DF {hexBE s.dflt.clockIdentity 8} {s.dflt.numberPorts} {s.dflt.quality.clockClass} {s.dflt.quality.accuracy} {s.dflt.quality.variance} {s.dflt.p1} {s.dflt.p2} {s.dflt.domain} {bstr s.dflt.slaveOnly} {s.dflt.sdoId} | CU {s.stepsRemoved} {off} {md} | PA {showPid s.parent.parentPort} {hexBE s.parent.gmIdentity 8} {s.parent.gmQuality.clockClass} {s.parent.gmQuality.accuracy} {s.parent.gmQuality.variance} {s.parent.gmP1} {s.parent.gmP2} | TP {showTp s.tp} | PT {bstr s.pathEnable} {path}"
+  String.join (head :: ports.map (fun (k, p) => " | " ++ showPortDS k p))
+
 /-- driver state of the instance stream: `none` = no live instance (before INIT or after a panic) -/
 def instLine (cur : Option Inst) (ws : List String) : Option Inst × String :=
   match ws with
+  | ["DUMP"] =>
+    match cur with
+    | some i => (cur, showObservable i)
+    | none => (none, "dead")
   | "INIT" :: rest =>
     match parseInit rest with
     | some i => (some i, "- | R ok | " ++ showState i)
